@@ -65,7 +65,8 @@ class C05(Prop):
         "SSet.equal_specs_same_prereleases", "SSet.key_cases", "SSet.canonical_isOk", "SSet.scan_no_star",
         "C05.ofSpecs_total", "C05.ofString_total", "C05.eq_sets_match_alike", "C05.contains_is_all_of_strings",
         "C05.clause_order_dup_invariant_of_strings", "C05.and_is_inter_of_strings", "SSet.cmpOk_of_readable",
-        "SSet.ofString_readable",
+        "SSet.ofString_readable", "SSet.parse_roundtrips", "SSet.scan_chars", "C05.ofString_roundtrips",
+        "C05.str_parses_back_of_strings", "C05.str_parses_back_and_of_strings", "C05.str_parses_back_of_parsed",
         "C05.and_is_inter", "C05.and_override_table", "C05.and_error_iff", "C05.and_comm", "C05.and_comm_ext",
         "C05.and_assoc", "C05.and_eq_parse_concat", "C05.eq_iff", "C05.eq_hash", "C05.eq_refl", "C05.eq_symm",
         "C05.eq_trans", "C05.ofString_wf", "C05.and_wf", "C05.str_perm_invariant", "C05.str_parses_back",
@@ -82,10 +83,9 @@ class C05(Prop):
                "(passed to the model from the running interpreter)",
                "hash() as an uninterpreted symmetric function of the members' canonical keys"]
     partial = [
-        "str_parses_back assumes for every member that its own string is one clean clause that parses back to it "
-        "(SSet.roundtrips, decidable): true for constructor-built members except === texts with a comma (known finding); "
-        "not proved from parseSpec (scanner idempotence) but evaluated by the model on every constructed set of the "
-        "correspondence (rt= in set.parse) and by the law str_roundtrip",
+        "the general str_parses_back keeps the decidable member hypothesis SSet.roundtrips; it is discharged for sets "
+        "parsed from strings and their & (str_parses_back_of_strings), and for members produced by Specifier(str) "
+        "unless an === text contains a comma (str_parses_back_of_parsed; that corner is the known finding, DESIGN §8 row 21)",
         "theorems over arbitrary model values keep the hypothesis CmpOk (no member raises when compared with the "
         "candidate); the *_of_strings theorems discharge it through C03 for string-built sets and parsed candidates; "
         "sets built from Specifier objects with their own overrides are covered by the general theorems + correspondence",
